@@ -252,6 +252,9 @@ def eps_direct(args):
     return body
 
 
+from .xhair import crosshair  # noqa: E402  (second opinion, thorough tier)
+
+
 def configs(tier):
     M = 4 if tier == 'quick' else 6
     MD = 2 if tier == 'quick' else 3
@@ -273,4 +276,7 @@ def configs(tier):
                     'args': {'m': m, 'marker': 'bool', 'symbolic_eps': True}, 'weight': 5})
         out.append({'name': 'eps-direct-m%d' % m, 'task': 'eps_direct',
                     'args': {'m': m, 'marker': 'real', 'eps': EPS_LISTS[m][0]}, 'weight': 2})
+    if tier == 'thorough':
+        out.append({'name': 'crosshair-second-opinion', 'task': 'crosshair', 'args': {'functions': ['pareto_antisymmetry_m2', 'pareto_definition_m1']}, 'weight': 1000,
+                    'engine': {'validate': 0, 'path_timeout_s': 900}})
     return out
